@@ -59,6 +59,11 @@ def configs(tier):
         for (m, n, M, N) in shapes:
             for direction in ('fwd', 'inv'):
                 variants = [('Qs', 'zero'), ('Qxy', 'sym')] if q else [('Qs', 'zero'), ('Qxy', 'zero'), ('Qs', 'sym'), ('Qxy', 'sym')]
+                if not q and max(m, n, M, N) >= 4:
+                    # sized for about half an hour on 16 cores: the larger shapes get the two extreme variants, and a bounded kernel size
+                    if m * n * M * N > 96 and (m, n, M, N) not in ((5, 5, 5, 5), (5, 4, 4, 5), (4, 5, 5, 4), (4, 4, 4, 4)):
+                        continue
+                    variants = [('Qs', 'zero'), ('Qxy', 'sym')]
                 # keep the quick tier small: the per-axis/symbolic-shift variant only on a parity-covering subset
                 for qk, sk in variants:
                     if q and (qk, sk) == ('Qxy', 'sym') and not (max(m, n, M, N) <= 2 or (m, n, M, N) in ((2, 3, 3, 2), (3, 2, 2, 3), (3, 3, 3, 3), (2, 2, 3, 3), (3, 3, 2, 2))):
